@@ -118,6 +118,9 @@ class Program:
             lbl = self.labels[-1] if self.labels else "EOT"
             # a nowdoc body is raw text: nothing in it is interpolated
             return r.choice([" raw $v%d {$w} ${x}\n", " $a[%d] $b->c \\n\n", "\n q%d\n" + lbl + "2;\n"]) % k
+        if lex == "HDTEXT_LABELLINE":
+            lbl = self.labels[-1] if self.labels else "EOT"
+            return r.choice([" w%d\n" + lbl + " is the marker\n", " w%d\n" + lbl + ", more\n z\n", "\n" + lbl + ") %d\n"]) % k
         if lex == "HDTEXT_INDENT":
             return "    indented %d\n    " % k
         if lex.startswith("CAST:"):
